@@ -72,7 +72,7 @@ PROPS["C10"] = {
 PROPS["C05"] = {
     "technique": "grammar-directed generation with syntactic-variant rendering; parsed AST compared with the denoted AST; single-field corruption table",
     "level_text": "Sentences are rendered from generated ASTs through every documented spelling variant (the renderer is independent of the library's Display) and the parser's output is compared field by field with the AST the sentence denotes; a table of single-field corruptions and unsupported constructs must be rejected. Exploration: coverage of productions x variants is measured and a variant never rendered fails the run.",
-    "rule": "seeded ASTs restricted to shapes the documented grammar can denote (<= 4 rules quick / 6 thorough; every selector kind alone in a third of the cases) x 3..7 spellings each chosen among 34 variant knobs (optional spaces, single-digit hours/days, off/closed, ':'/' ' separators, '+' forms, 'Jan 5-10', '\"c\":' prefix, ...); oracle: parse(render(ast)) == ast on the library's public AST type. Negative: ~1500 single-field corruptions (hour, minute, extended time, day, week, nth, year, zero step, empty, unbalanced quote) in 6 sentence contexts must be Err; points in time and Easter+day number must be Err. Plus, in every tier, an EXHAUSTIVE sweep of the value domain of every atomic field, one field per sentence, plain + 2 random spellings each (atomic_values_enumerated ~ 72 700): every year 1900..9999 alone / open-ended / as range end, year steps, all 53x53 week pairs and week steps 2..255, all 12x12 month pairs with and without year, every day 1..31 of every month alone, dated, and as range start with ends in the same/next month/year, day offsets -400..400 on dates, Easter and PH, weekday offsets, all 7x7 weekday pairs, all 1022 non-empty sets of nth positions per weekday, every clock minute 00:00..24:00 as start and 00:01..48:00 as end, open ends, repeats 1..1440 min, event offsets -1440..1440 for the four events at either end of a span. Non-trivial = expression with at least one selector; distinct by hash of the AST.",
+    "rule": "seeded ASTs restricted to shapes the documented grammar can denote (<= 4 rules quick / 6 thorough; every selector kind alone in a third of the cases) x 3..7 spellings each chosen among 36 variant knobs (incl. redundant and reordered entries of nth-position lists) (optional spaces, single-digit hours/days, off/closed, ':'/' ' separators, '+' forms, 'Jan 5-10', '\"c\":' prefix, ...); oracle: parse(render(ast)) == ast on the library's public AST type. Negative: ~1500 single-field corruptions (hour, minute, extended time, day, week, nth, year, zero step, empty, unbalanced quote) in 6 sentence contexts must be Err; points in time and Easter+day number must be Err. Plus, in every tier, an EXHAUSTIVE sweep of the value domain of every atomic field, one field per sentence, plain + 2 random spellings each (atomic_values_enumerated ~ 72 700): every year 1900..9999 alone / open-ended / as range end, year steps, all 53x53 week pairs and week steps 2..255, all 12x12 month pairs with and without year, every day 1..31 of every month alone, dated, and as range start with ends in the same/next month/year, day offsets -400..400 on dates, Easter and PH, weekday offsets, all 7x7 weekday pairs, all 1022 non-empty sets of nth positions per weekday, every clock minute 00:00..24:00 as start and 00:01..48:00 as end, open ends, repeats 1..1440 min, event offsets -1440..1440 for the four events at either end of a span. Non-trivial = expression with at least one selector; distinct by hash of the AST.",
     "assumptions": ["the harness renderer emits only sentences derivable from grammar.pest (checked by review and by the unchanged tree accepting all of them)", "PartialEq on the public AST types"],
 }
 
@@ -86,7 +86,7 @@ PROPS["C01"] = {
 PROPS["C02"] = {
     "technique": "self-consistency monitor over the public API plus an offline check of the iterator's skip log (hook H2): interval stream vs schedule_at on every day the iterator did not look at",
     "level_text": "For generated (expression, context, window) the whole interval stream is consumed and checked for tiling (non-empty, increasing, gap-free, exact cover of [from, min(to, 10000-01-01)), alternating states) and every interval is compared with the daily schedules: all days of short intervals, and for long ones exactly the days the iterator reports as skipped (hook H2) plus model-derived candidate days. Exploration; the evidence states how many skipped days were point-checked and how many days inside long intervals were not.",
-    "rule": "seeded ASTs (a third biased to long constant intervals) x holiday contexts x windows: short (<= 10 days, arbitrary start second), medium (<= 3 years), long (<= 60 years; thorough up to 8100 years), straddling 1900 / 9999, empty, inverted, open-ended (capped); plus an EXACT-STREAM GRID: ~460 (thorough ~1400 x 3 variants) one-rule expressions taking every value of one day-selector parameter (weeks, week ranges and steps, days of the year, months, month and date ranges, nth weekdays, weekday/day offsets, Easter offsets), plain or with '10:00-12:00' / '22:00-26:00 unknown', iterated over 1900..1960, 9940..9999 and a 400-year window rotating with the seed (thorough: the plain variants over the whole range 1900..9999) and compared interval by interval with the runs obtained by evaluating EVERY day of the window (exact_grid_days_evaluated ~ 88 million, exact_grid_intervals_compared ~ 11 million). Oracle: schedule_at of the same value (C01 ties it to the semantics). Non-trivial = stream with >= 2 intervals or a skip of >= 2 days; distinct by hash of (AST, context, window).",
+    "rule": "seeded ASTs (a third biased to long constant intervals) x holiday contexts x windows: short (<= 10 days, arbitrary start second), medium (<= 3 years), long (<= 60 years; thorough up to 8100 years), straddling 1900 / 9999, empty, inverted, open-ended (capped); plus an EXACT-STREAM GRID: ~460 (thorough ~1400 x 3 variants) one-rule expressions taking every value of one day-selector parameter (weeks, week ranges and steps, days of the year, months, month and date ranges, nth weekdays, weekday/day offsets, Easter offsets), plain or with '10:00-12:00' / '22:00-26:00 unknown', iterated over 1900..1960, 9940..9999 and a 400-year window rotating with the seed (thorough: the plain variants over the whole range 1900..9999) and compared interval by interval with the runs obtained by evaluating EVERY day of the window (exact_grid_days_evaluated ~ 88 million, exact_grid_intervals_compared ~ 11 million). Also a TIME-SHAPE GRID: every pair of spans built from the clock values 00:00, 00:01, 12:00, 23:59, 24:00, 24:01, 36:00, 47:59, 48:00, open ends and sun events (55 spans, ~ 6400 one-rule expressions quick, ~ 49 000 thorough) under 8 (16) day selectors, whole stream of 2018..2042 (1990..2050) compared with every day evaluated (time_shape_grid_windows_passed). Oracle: schedule_at of the same value (C01 ties it to the semantics). Non-trivial = stream with >= 2 intervals or a skip of >= 2 days; distinct by hash of (AST, context, window).",
     "assumptions": ["schedule_at is the pointwise truth (decided separately by C01)", "hook H2 reports every jump of the day cursor (one call site, reviewed)"],
 }
 
@@ -107,21 +107,21 @@ PROPS["C08"] = {
 PROPS["C06"] = {
     "technique": "self-consistency monitor: print -> parse -> evaluate both sides on boundary-biased days (kinds and comment sets), for expressions and their normal forms",
     "level_text": "Every generated expression (all Display branches: year steps, dated months, offsets, nth lists, holiday offsets, week ranges, open ends, repeats, event offsets, comments, the three separators) is printed by the library, reparsed, and both values are evaluated on days derived from both ASTs +-2, month starts and random days, comparing kinds per minute range and comments as sets after splitting on ', '; the same for the normal form. Exploration. The Python str/repr part of the property is observed by the C12 driver.",
-    "rule": "seeded ASTs as in C01/C05 x holiday context x ~48 targeted + 32 random + 24 month-boundary days (thorough: + 400-day sweep). Non-trivial = expression with a selector; distinct by hash of the AST.",
+    "rule": "seeded ASTs as in C01/C05 x holiday context x ~48 targeted + 32 random + 24 month-boundary days (thorough: + 400-day sweep); plus, in every tier, the ATOMIC-VALUE SWEEP shared with C05 (one one-rule expression per value of every atomic field: every year, every year step 2..65535, week pairs and steps, months, days, nth-position sets, clock minutes to 48:00, repeats, event and day offsets; ~ 138 000 expressions, atomic_values_enumerated), each printed, reparsed and evaluated on both sides. Non-trivial = expression with a selector; distinct by hash of the AST.",
     "assumptions": ["the library's evaluator is used on both sides (self-consistency)", "comment comparison is modulo joining with ', ' as the property allows"],
 }
 
 PROPS["C07"] = {
     "technique": "self-consistency monitor: original vs normalized expression evaluated on boundary-biased days; known finding D11 classified by trigger predicate after shrinking",
     "level_text": "Generated expressions, weighted towards canonical rules with overlapping selectors mixed with non-canonical rules, all operators and kinds, are normalized and both forms evaluated (schedule kinds per minute range and state at probed instants) on days derived from both forms' selectors +-2, every month boundary of a year and random days. Exploration; the evidence counts how many inputs were folded, emitted an additional rule, or changed at all.",
-    "rule": "seeded ASTs with 80% canonical rules (plain ranges in every dimension) in 4 of 5 shards x holiday context x ~64 targeted + 40 random + 24 month-boundary days (thorough: + 800-day sweep). Non-trivial = >= 2 rules and the normal form differs from the input; distinct by hash of the AST.",
+    "rule": "seeded ASTs with 80% canonical rules (plain ranges in every dimension) in 4 of 5 shards x holiday context x ~64 targeted + 40 random + 24 month-boundary days (thorough: + 800-day sweep); plus, in every tier, the ATOMIC-VALUE SWEEP shared with C05 (one one-rule expression per value of every atomic field: every year, every year step 2..65535, week pairs and steps, months, days, nth-position sets, clock minutes to 48:00, repeats, event and day offsets; ~ 138 000 expressions, atomic_values_enumerated), alone and followed by 'Mo-Fr 09:00-17:00', normalized and compared on days derived from both forms. Non-trivial = >= 2 rules and the normal form differs from the input; distinct by hash of the AST.",
     "assumptions": ["the library's evaluator is used on both sides (self-consistency)", "listed finding D11 (commentless_closed_before_midnight_span) is reported as KNOWN-FINDING, any failing reduction outside its trigger as VIOLATION"],
 }
 
 PROPS["C13"] = {
     "technique": "invariant monitor on normalize: second pass, repeated pass, reparsed clone, other thread, and print/reparse/re-normalize round trip",
     "level_text": "On overlap-heavy generated expressions normalize(normalize(e)) is compared with normalize(e) (PartialEq on expressions and on their print-outs), normalization of equal expressions (same value again, an independently reparsed equal value, a value normalized on another thread) must be equal, and the normal form must print, reparse, and - normalized once more after going through text - evaluate identically. Exploration.",
-    "rule": "the C07 workload (80% canonical rules in 4 of 5 shards, all operators/kinds, comments on closed rules). Non-trivial = the normal form differs from the input; distinct by hash of the AST.",
+    "rule": "the C07 workload (80% canonical rules in 4 of 5 shards, all operators/kinds, comments on closed rules); plus, in every tier, the ATOMIC-VALUE SWEEP shared with C05 (one one-rule expression per value of every atomic field: every year, every year step 2..65535, week pairs and steps, months, days, nth-position sets, clock minutes to 48:00, repeats, event and day offsets; ~ 138 000 expressions, atomic_values_enumerated), alone and followed by 'Mo-Fr 09:00-17:00'. Non-trivial = the normal form differs from the input; distinct by hash of the AST.",
     "assumptions": ["PartialEq on the public AST types", "evaluation comparison as in C06"],
 }
 
@@ -135,7 +135,7 @@ PROPS["C16"] = {
 PROPS["C17"] = {
     "technique": "invariant monitor on returned structures plus the reference model's per-minute provenance to recognise the 'exactly one rule, isolated' premise",
     "level_text": "For generated expressions with comments on random subsets of rules (shared, duplicate, containing ', ', on closed rules) every range of schedule_at on targeted and random days and every interval of short windows is checked: comments strictly increasing, all taken from rules of the expression, empty outside 1900..9999 and on days to which the model says no rule contributes; periods that the model attributes to exactly one rule with no other rule's minutes touching or overlapping must carry exactly that rule's comments; the first interval of iter_range carries the comments of the schedule period containing the start. Exploration.",
-    "rule": "seeded ASTs with comments on 65% of the rules x holiday context x ~40 targeted + 24 random days + 3 days outside the range x 6 window starts (2 at the bounds). Non-trivial = at least one rule has a comment; distinct by hash of (AST, context).",
+    "rule": "seeded ASTs with comments on 65% of the rules x holiday context x ~40 targeted + 24 random days + 3 days outside the range x 6 window starts (2 at the bounds); plus a SIZE FAMILY: 1..48 overlapping additional rules each with its own comment, in six variants (open / unknown / repeated texts / prefix + modifier comment / mixed kinds / texts of growing length), so that any threshold on the number of comments accumulated on one period is crossed one step at a time (many_comments_expressions_checked = 288, max_comments_on_one_range = 96). Non-trivial = at least one rule has a comment; distinct by hash of (AST, context).",
     "assumptions": ["the premise 'contributed by exactly one rule' is read conservatively from the model's per-rule minutes (DESIGN.md C17)", "abstention shapes of the model skip the provenance check only"],
 }
 
@@ -149,7 +149,7 @@ PROPS["C09"] = {
 PROPS["C11"] = {
     "technique": "physical-invariant monitor on event instants and on evaluation with inferred contexts, plus acceptance-boundary probing of the coordinate validator",
     "level_text": "Without coordinates, event-based spans with offsets must sit at 06:00/07:00/19:00/20:00 on random dates (naive and zoned contexts). Coordinate pairs from a boundary set (+-90, +-180, +-1 ulp, +-inf, NaN, huge) and random ones must be accepted iff within range and not NaN. Every accepted pair (5-degree global grid incl. poles and antimeridian, random sites, 40 cities) must yield a zone and evaluate without panic; below 60 degrees the five event instants must be strictly ordered, solar noon within 25 min of mean solar noon, the day's schedule must show exactly the local event times, 'sunrise-sunset' open at solar noon and closed 12 h away, the inferred zone within 5 h of mean solar time, and reference cities mapped to a zone with their offsets. Exploration.",
-    "rule": "exhaustive over dates: the defaults are checked on EVERY day 1900-01-02..9999-12-31 in a plain and a zoned context (default_event_days_swept = 2 958 463); seeded: per case one default-event check (random date 1900..9999, two events with offsets, random zone), four coordinate-pair acceptance probes, and one site (60% random with |lat| <= 60, 10% at latitude boundaries/poles, 10% at the antimeridian, 20% near a reference city) on a date of 1900..2100 (solstices and equinoxes over-weighted). Non-trivial = site check completed; distinct by hash of (lat, lon, date). Immediately before each judged site the same coordinates are evaluated under another, explicit zone on the same dates (hostile history; the first evaluation in the judged context must already be right). The open-at-noon/closed-at-midnight probe is made only when all five events fall on the same local calendar day (abstained_wrap otherwise).",
+    "rule": "exhaustive over dates: the defaults are checked on EVERY day 1900-01-02..9999-12-31 in a plain and a zoned context (default_event_days_swept = 2 958 463); seeded: per case one default-event check (random date 1900..9999, two events with offsets, random zone), four coordinate-pair acceptance probes, and one site (60% random with |lat| <= 60, 10% at latitude boundaries/poles, 10% at the antimeridian, 20% near a reference city) on a date of 1900..2100 (solstices and equinoxes over-weighted). Non-trivial = site check completed; distinct by hash of (lat, lon, date). Zone inference is compared with an own instance of tzf-rs's DefaultFinder (the finder the library is documented to use; unknown names -> UTC as in the library) on 6000 (thorough 60 000) walks across zone borders: end points in different zones (cities or random sites), border located by bisection on the oracle, then 14 lookups stepping +-10 m..500 m across it (border_walk_lookups, border_crossings_between_consecutive_lookups). Immediately before each judged site the same coordinates are evaluated under another, explicit zone on the same dates (hostile history; the first evaluation in the judged context must already be right). The open-at-noon/closed-at-midnight probe is made only when all five events fall on the same local calendar day (abstained_wrap otherwise).",
     "assumptions": ["the astronomy of the `sunrise` crate is trusted up to the physical-ordering checks", "tzf-rs/chrono-tz data are trusted; only their use is monitored"],
 }
 
@@ -181,6 +181,6 @@ PROPS["C04"] = {
     "special": _c04.special,
     "technique": "hostile-input monitor: catch_unwind around every public call plus logical step budgets counted by hook H1 (bounded work decided on steps, not time); two build profiles; thorough adds libFuzzer+ASan",
     "level_text": "Three hostile string sources (token-level mutation of rendered sentences and of the suite's 204 sample lines with a dictionary of known troublemakers, single-field numeric corruptions, random Unicode) go through parse; everything that parses is printed, normalized (paving operations counted against a polynomial budget) and evaluated - schedule_at, state, is_*, iter_range consumed, next_change - in naive, zoned (zones with gaps and date-line changes) and coordinate-inferred contexts (poles, antimeridian), with and without interval-size bounds, at instants from years -262000..262000. A panic is a violation; so is a call that takes more outer day-steps than its window has days, or inner loop ticks out of proportion with the expression's size. Both the checked profile (debug assertions, overflow checks) and the plain release profile are run. Exploration.",
-    "rule": "seeded strings from 8 rotating sources (rendered sentence; 2x mutated rendered sentence; 2x mutated sample line; digit-run corruption; random Unicode; dictionary triples) x 3 contexts x windows of 0..5000 days; unbounded next_change from arbitrary instants in 0.4% of the evaluated strings (2% thorough) with a budget of (days to 10000-01-01)+3 day-steps. Non-trivial = string parses, or is rejected and non-empty; distinct by hash of the string.",
+    "rule": "seeded strings from 8 rotating sources (rendered sentence; 2x mutated rendered sentence; 2x mutated sample line; digit-run corruption; random Unicode; dictionary triples) x 3 contexts (30% with an interval-size bound of 1 / 7 / 366 / 18 000 days, of which 12% hostile: TimeDelta::MAX, MAX - 1 day, MAX - 23 h, MIN, zero, -5 min, 1 ns, 86 399 s, 3 million days, half the representable days) x windows of 0..5000 days, with a budget on the number of intervals an iterator may yield (hook site IterNext); unbounded next_change from arbitrary instants in 0.4% of the evaluated strings (2% thorough) with a budget of (days to 10000-01-01)+3 day-steps. Non-trivial = string parses, or is rejected and non-empty; distinct by hash of the string.",
     "assumptions": ["hook H1 counts every iteration of the evaluator's loops (sites reviewed)", "the wall-clock watchdog only makes a run inconclusive", "the Feb-29 scan and offset windows are linear in years by design; budgets account for them"],
 }
